@@ -284,9 +284,14 @@ func c08Step(peers map[string]*c08Peer, tok string) (string, bool) { //nolint:cy
 			if errT != nil {
 				return seg("err", "-", "-")
 			}
-			snd, errS := p.api.NewRTPSender(tr, p.pc.SCTP().Transport())
-			if errS != nil {
-				return seg("err", "-", "-")
+			// re-use the transceiver's own (possibly already negotiated) sender when it has one, as an
+			// application swapping the track does; otherwise a fresh sender
+			snd := trs[i].Sender()
+			if snd == nil {
+				var errS error
+				if snd, errS = p.api.NewRTPSender(tr, p.pc.SCTP().Transport()); errS != nil {
+					return seg("err", "-", "-")
+				}
 			}
 
 			return seg(c08Status(trs[i].SetSender(snd, tr)), "-", "-")
